@@ -9,7 +9,7 @@ from common import Driver, DriverFailure, REPO
 
 LEVEL = "proof"
 MANIFEST = dict(
-    text="The quantifier (every await point of discovery, of each handshake step, and steady state) is a finite table regenerated from the source together with the  The crash-point table has one entry per suspension point of the regenerated skeletons of _connect and discover (crash_points_cover_every_suspension: two independent translators agree)."
+    text="The quantifier (every await point of discovery, of each handshake step, and steady state) is a finite table regenerated from the source together with the  The crash-point table has one entry per suspension point of the regenerated skeletons of _connect and discover (crash_points_cover_every_suspension: two independent translators agree). Also: two commands of each kind in flight when the connection is reset / the context exited; task_registry_tracks_every_task."
          "teardown facts (what disconnect / discover / __aexit__ / facade.disconnect / _connect / the sequence pump do) and the step lists of the teardown procedures; "
          "the Lean theorems are kernel evaluations over the WHOLE table: the FULL statement no_leak_at_any_point (at every point a reset or a context exit leaves no "
          "endpoint open, no task alive, no observer registered, and the pump alive after a reset - it holds since the three fix: commits 54b7766 / a588de4 / 0bd0a89; "
@@ -311,6 +311,59 @@ def explore_error(scenario, origin, yielding, settle=150.0):
     return res
 
 
+def explore_commands_in_flight(kind):
+    """steady state, the spa stops answering, the client issues the SAME kind of command twice (two key presses, two set-values: each
+    starts a background task of the connection under the same name), then a reset or a context exit: every one of those tasks ends"""
+    from geckolib import GeckoAsyncSpaMan
+    res = {}
+
+    async def body(loop):
+        class Man(GeckoAsyncSpaMan):
+            async def handle_event(self, event, **kw):
+                pass
+        sim = fakenet.make_sim(SNAP)
+        net = fakenet.Network(loop, sim, phases=[(20, "healthy"), (100000, "blackout")], seed=1)
+        loop.network = net
+        m = Man("uuid-1", spa_identifier=IDENT, spa_address="10.0.0.9", spa_name="Spa")
+        await m.__aenter__()
+        while loop.time() < 21 and m.facade is None:
+            await asyncio.sleep(0.05)
+        res["connected"] = m.facade is not None
+        if m.facade is None:
+            await m.__aexit__(None, None, None)
+            return
+        while loop.time() < 21:
+            await asyncio.sleep(0.05)
+        spa = m.facade.spa
+        before = set(asyncio.all_tasks())
+        spa.press(1)
+        spa.press(2)
+        acc = [a for a in spa.accessors.values() if a.read_write is not None and a.type == "Word"][:1] or \
+              [a for a in spa.accessors.values() if a.read_write is not None][:1]
+        for v in (1, 2):
+            try:
+                acc[0].value = acc[0].value if not isinstance(acc[0].value, int) else (acc[0].value + v) % 100
+            except Exception as e:  # noqa
+                res["set_error"] = f"{type(e).__name__}: {e}"
+        await asyncio.sleep(0.3)
+        mine = [t for t in asyncio.all_tasks() if t not in before and t.get_name().startswith("SPA:")]
+        res["command_tasks"] = sorted(t.get_name() for t in mine)
+        if kind == "reset":
+            await m.async_reset()
+            await asyncio.sleep(1.0)
+            res["alive_after"] = sorted(t.get_name() for t in mine if not t.done())
+            await m.__aexit__(None, None, None)
+        else:
+            await m.__aexit__(None, None, None)
+            await asyncio.sleep(0.2)
+            res["alive_after"] = sorted(t.get_name() for t in mine if not t.done())
+        for t in mine:
+            if not t.done():
+                t.cancel()
+    vloop.run_virtual(body, stable=True)
+    return res
+
+
 def show(e, t, o, p):
     return f"endpointOpen={int(bool(e))} tasksAlive={int(bool(t))} observersLeft={int(bool(o))} pumpAlive={int(bool(p))}"
 
@@ -394,6 +447,20 @@ def run(ctx):
                     ctx.violation(f"pump-dead:error-reset:{tag}", inp, "the manager keeps working after a reset", "sequence pump finished")
                 lines.append(f"errreset {origin} {int(yielding)}")
                 impl.append(show(e["endpoint_open"], e["tasks_alive"], e["observers_left"], e["pump_alive"]) + f" completed={int(e['reset_outcomes'][0] == 'returned')}")
+    # ------------- commands of the same kind in flight when the connection is abandoned
+    for kind in ("reset", "exit"):
+        try:
+            c = explore_commands_in_flight(kind)
+        except Exception as e:  # noqa
+            ctx.violation(f"commands-in-flight:raised:{kind}", {"kind": "commands-in-flight", "action": kind}, "the scenario runs", f"{type(e).__name__}: {e}")
+            continue
+        ctx.count("evaluations")
+        ctx.hist("commands_in_flight", f"{kind}:{len(c.get('command_tasks', []))} tasks")
+        if c.get("connected") and len(c.get("command_tasks", [])) >= 4 and c.get("alive_after"):
+            ctx.violation(f"tasks-alive:{kind}:commands-in-flight", {"kind": "commands-in-flight", "action": kind, "tasks_started": c["command_tasks"]},
+                          "every background task of the abandoned connection terminates", c["alive_after"])
+        elif not c.get("connected") or len(c.get("command_tasks", [])) < 4:
+            ctx.count("commands_in_flight_not_set_up")
     # ------------- cycles
     n = 4 if ctx.quick else 30
     cyc = explore(cycles=n, horizon=8.0)
@@ -429,6 +496,9 @@ def run(ctx):
 
 
 def replay(inp):
+    if inp.get("kind") == "commands-in-flight":
+        c = explore_commands_in_flight(inp["action"])
+        return bool(c.get("alive_after")), c
     if "scenario" in inp:
         e = explore_error(inp["scenario"], inp["origin"], inp["yielding"])
         bad = bool(e.get("endpoint_open") or e.get("tasks_alive") or e.get("observers_left") or e.get("late_callbacks") or not e.get("pump_alive", True))
